@@ -162,7 +162,7 @@ func generate() []session {
 	}
 
 	// 3. sampled pairs of mutations
-	n := run.Pick(150, 8000)
+	n := run.Pick(150, 30000)
 	for i := 0; i < n; i++ {
 		prog := []string{"play", "play", "record"}[r.Intn(3)]
 		ms := methods[prog]
